@@ -230,7 +230,14 @@ func runXZWrite(c caseXZ) (*writeResult, *ev.Failure) {
 	if c.Prior > 0 {
 		// an earlier instance must not influence this one
 		if pw, err := c.Cfg.XZ().NewWriter(io.Discard); err == nil {
-			junk := gen.Recipe{{Kind: "text", K: 7, Len: c.Prior, Seed: uint64(c.Prior)}}.Expand()
+			// the earlier writer works within the same budget as the judged one:
+			// at most 16 blocks (with BlockSize 1 and the default 8 MiB dictionary
+			// every byte costs a new encoder)
+			n := c.Prior
+			if bs := c.Cfg.BlockSize; bs > 0 && int64(n) > 16*bs {
+				n = int(16 * bs)
+			}
+			junk := gen.Recipe{{Kind: "text", K: 7, Len: n, Seed: uint64(c.Prior)}}.Expand()
 			pw.Write(junk)
 			if c.Prior%2 == 1 {
 				pw.Close()
